@@ -126,6 +126,19 @@ class Builder:
             name = {"and": "AndRestriction", "or": "OrRestriction", "justone": "JustOneRestriction", "atmost": "AtMostOneOfRestriction"}[d["kind"]]
             ntype = "package" if d["dom"] == "pkg" else "values"
             mod = P if ntype == "package" else V
+            if d.get("inc") is not None:
+                # public incremental construction path: finalize=False, an early hash attempt (rejected with
+                # TypeError on an unfinalized node -- "have I seen this one?" bookkeeping), add_restriction, finalize
+                k = min(d["inc"], len(kids))
+                node = getattr(B, name)(*kids[:k], node_type=ntype, negate=d["neg"], finalize=False, disable_inst_caching=True)
+                try:
+                    hash(node)
+                except TypeError:
+                    pass
+                if kids[k:]:
+                    node.add_restriction(*kids[k:])
+                node.finalize()
+                return node
             if sp == 0 and hasattr(mod, name):
                 # the curried constructors packages.AndRestriction / values.OrRestriction ...
                 return getattr(mod, name)(*kids, **opt(negate=(d["neg"], False)), **kw)
@@ -340,7 +353,7 @@ def variant(draw, d):
     elif t in ("flatten", "strconv"):
         kinds = ["copy", "child"] + (["flipneg", "respell"] if t == "flatten" else [])
     elif t == "bool":
-        kinds = generic + ["flipneg", "kind", "reorder", "child", "child", "dropchild"]
+        kinds = generic + ["flipneg", "kind", "reorder", "child", "child", "dropchild", "incremental", "incremental"]
     elif t == "atom":
         kinds = ["copy", "respell", "atomvar", "atomvar", "atomvar"]
     else:
@@ -409,6 +422,8 @@ def variant(draw, d):
         else:
             inner, g["child"] = draw(variant(d["child"]))
             return inner, g
+    elif kind == "incremental":
+        g["inc"] = draw(st.integers(0, len(d["children"])))
     elif kind == "dropchild":
         g["children"] = d["children"][:-1]
     elif kind == "attr":
@@ -536,3 +551,17 @@ def ru_pair(draw):
         kind = "independent"
         other = draw(st.lists(ru_node(), min_size=1, max_size=4))
     return kind, nodes, other
+
+
+# ---- query histories through one caching repo ---------------------------------------------------------------------
+@st.composite
+def query_history(draw):
+    """3-8 queries of one restriction type (same-sized objects: a freed address is readily reused by the next one);
+    each entry (descriptor, drop-after-query, build-without-instance-cache)"""
+    kind = draw(st.sampled_from(["atom", "atom", "atom", "VM", "dep", "pkgr"]))
+    strat = {"atom": atom_desc(), "VM": vm_desc("VM"), "dep": dep_desc(), "pkgr": pkgr_desc()}[kind]
+    n = draw(st.integers(3, 8))
+    out = []
+    for _ in range(n):
+        out.append([draw(strat), draw(st.sampled_from([True, True, True, False])), draw(_b)])
+    return out
